@@ -198,6 +198,16 @@ CHECKS = {
             "the owning module is selected, nothing and no exception otherwise. The kind x selection x wiring matrix is complete; values are sampled.",
             "Trusted: the ownership rule (package defining the entity class) and vf/catalogue.py. iq replies are C08's, encrypted stanzas C03's.",
             "DESIGN.md 4/C06"),
+    "C07": ("exploration",
+            "runtime monitor: stanzas injected into full protocol stacks (axolotl + protocol layers) for all 16 module selections; the answers recorded by the bottom probe are compared with the required acknowledgement (exactly one, matching id/class/type/to/participant/call id)",
+            "15 notification kinds (incl. group, contact, encrypt count/identity and unknown types) with and without participant, "
+            "6 call kinds, server pings with generated ids and 5 kinds of unpresentable plaintext-proto messages (revoke, empty "
+            "payload, unknown media type, media-typed without media type, supported media with the media module left out) are "
+            "injected into a stack of bottom probe + axolotl control/send/receive + protocol group for each of the 16 module "
+            "selections (40 draws per cell quick, 1 500 thorough). Exactly one ack/receipt/pong with the stanza's id, class, "
+            "type, sender, participant (absent when absent) and call id must be sent down. Four seeded mutants are caught.",
+            "Trusted: our reading of the required answer shapes. Kinds x selections complete, values sampled.",
+            "DESIGN.md 4/C07"),
 }
 
 NOT_BUILT = "check not built yet in this session (planned, see DESIGN.md section 4)"
